@@ -317,6 +317,20 @@ void Sim::exec_step(const Step& s, ns_t* next_override) {
     case SK::BrokerPublish:
         broker.publish((uint8_t)s.a, s.s1, s.s2, s.props, s.b != 0);
         break;
+    case SK::BrokerBurst: {
+        // a = number of messages, b = max payload filler; messages differ by a counter in topic and payload
+        auto r = sim::Rng::keyed(w.seed, "burst", {(uint64_t)s.id});
+        for (int i = 0; i < std::max(1, s.a); ++i) {
+            std::string pl = "m" + std::to_string(s.id * 1000 + i) + ":";
+            size_t n = r.below((uint64_t)std::max(1, s.b));
+            for (size_t k = 0; k < n; ++k) pl.push_back((char)('a' + r.below(26)));
+            mq::Props pr;
+            if (r.chance(0.3)) { mq::Prop u; u.id = mq::P_USER; u.s1 = "k"; u.s2 = std::to_string(i); pr.push_back(u); }
+            if (r.chance(0.2)) { mq::Prop u; u.id = mq::P_CONTENT_TYPE; u.s1 = "ct"; pr.push_back(u); }
+            broker.publish(0, "b/" + std::to_string(s.id * 1000 + i), pl, pr, false);
+        }
+        break;
+    }
     case SK::BrokerDisconnect:
         broker.send_disconnect((uint8_t)s.a, s.props);
         break;
